@@ -15,7 +15,7 @@ def _gen(ctx, gopkg):
 
 def run(ctx):
     q = ctx.tier == "quick"
-    n_salt, n_prov, n_leg, n_ks = (600, 300, 300, 150) if q else (12000, 5000, 5000, 2500)
+    n_salt, n_prov, n_leg, n_ks = (600, 450, 450, 150) if q else (12000, 7500, 7500, 2500)
     hdr = HDR.format(imports="lib.TokSplit model.C19_model model.C19_run")
 
     def stages(ctx, mult, suffix, off):
